@@ -539,3 +539,18 @@ func init() {
 		},
 	}
 }
+
+// additions of the second build session to what the checks feed and watch (kept apart so that the
+// original descriptions above stay readable)
+func init() {
+	add := func(p, text string) { plans[p].Rule += " " + text }
+	add("C01", "Every decoded slice must have len <= cap.")
+	add("C05", "Also scalar destinations (json.Number also quoted, bool, float32, uint8, `,string` fields, number-keyed maps) and quoted-number prefixes; short inputs that are not valid UTF-8, and one input in 16 otherwise, are re-run on the heap with two other histories of the internal pools (a primer document decoded between all entry points) and must give the same transcript.")
+	add("C07", "Also runs of 1e3..1e6 UTF-8 continuation bytes around a syntax error, objects with a key of that size, decoder.Decoder with DisallowUnknownFields, HTMLEscape into a 70000-byte destination, Buffered/More after a failed stream Decode, cycles made of pointers only; an UnsupportedValueError must carry its description.")
+	add("C11", "One case in four also decodes three concatenated values with one decoder.Decoder (compared value by value up to the first error).")
+	add("C14", "After every copying search the caller reuses its buffer and the located node is checked again.")
+	add("C15", "Further operations: SetAny/AddAny/SetAnyByIndex (values opaque in the model), IndexPair, IndexOrGet, GetByPath, Map/Array/Interface views mid-sequence; the constructed replica builds half of its pairs as Pair literals.")
+	add("C16", "Further node families: partly read single-threaded, then Load()/LoadAll(); located value malformed at its first level (either face of the node or its syntax error is accepted; a case that does not finish is decided from the readers' stacks: all parked on the node mutex = deadlock).")
+	add("C17", "Further: typed destinations with values of the wrong type (the stream must go on), *ast.Node destinations against encoding/json into RawMessage, readers that report their failure once together with the last data (every byte position; oracle: the values complete in the delivered bytes, then the reader error by identity).")
+	add("C18", "CopyString is also compared over four-value streams (typed and *ast.Node destinations read after the stream was consumed); UseUnicodeErrors documents carry a twice-quoted literal for a `,string` field.")
+}
